@@ -210,7 +210,7 @@ def _pgpy_sign(pgpy, w, st, ctx, cls, shapes):
         if ln.startswith('-') and not raw.startswith('- '):
             ctx.viol('C11:dash-escape-missing', 'a line starting with a dash was written without dash-escape')
     ctx.probe('hash_header_checked')
-    want_hash = sorted(set({1: 'MD5', 2: 'SHA1', 8: 'SHA256', 9: 'SHA384', 10: 'SHA512', 11: 'SHA224'}[st['hash']] for _ in signers))
+    want_hash = sorted(set({1: 'MD5', 2: 'SHA1', 3: 'RIPEMD160', 8: 'SHA256', 9: 'SHA384', 10: 'SHA512', 11: 'SHA224'}[st['hash']] for _ in signers))
     if sorted(blk.hash_headers) != want_hash:
         ctx.viol('C11:hash-header', 'Hash: header is %s, signatures use %s' % (blk.hash_headers, want_hash))
     signed = rarmor.cleartext_signed_octets(blk.cleartext)
@@ -302,7 +302,7 @@ def _ref_sign(pgpy, ref_pgpy_key, rpub, rsecret, st, ctx, cls, shapes):
     signed = rarmor.cleartext_signed_octets(text)
     hashed = rsigs.sp_created(1_590_000_000) + rsigs.sp_issuer_fpr(rpub.fingerprint)
     body = rsigs.sign(0x01, rpub, rsecret, st['hash'], hashed, rsigs.sp_issuer(rpub.keyid), signed)
-    hname = {1: 'MD5', 2: 'SHA1', 8: 'SHA256', 9: 'SHA384', 10: 'SHA512', 11: 'SHA224'}[st['hash']]
+    hname = {1: 'MD5', 2: 'SHA1', 3: 'RIPEMD160', 8: 'SHA256', 9: 'SHA384', 10: 'SHA512', 11: 'SHA224'}[st['hash']]
     armored = rarmor.make_cleartext(text.replace('\r\n', '\n'), encode_packet(2, body), [hname])
     for how, kinds in (('unchanged', []), ('+'.join(sorted(st.get('gateway', []))), st.get('gateway', []))):
         if how != 'unchanged' and not kinds:
